@@ -597,8 +597,13 @@ func c04overtaken(env *core.Env, kind string) {
 			env.Failf("C04/Write/unexpected-failure", "Write failed although no fault was injected: %v", err)
 		}
 	}
-	if err := w0.Close(); err != nil {
-		env.Failf("C04/Close/unexpected-failure", "Close failed although no fault was injected: %v", err)
+	// (called directly, the writer that started the upload may stay in use: it is one
+	// more writer with a position of its own)
+	creatorWrites := kind == "mem" && c.Bool("creator-stays-in-use", 1, 3)
+	if !creatorWrites {
+		if err := w0.Close(); err != nil {
+			env.Failf("C04/Close/unexpected-failure", "Close failed although no fault was injected: %v", err)
+		}
 	}
 	id := w0.ID()
 	n := int64(len(base))
@@ -617,6 +622,9 @@ func c04overtaken(env *core.Env, kind string) {
 	if err != nil {
 		env.Failf("C04/resume/unexpected-failure", "second PushBlobChunkedResume(offset %d) failed: %v", offB, err)
 	}
+	if creatorWrites {
+		wB, offB = w0, n // the creator has written exactly the base so far
+	}
 	first, second, offSecond := wA, wB, offB
 	if c.Bool("b-writes-first", 1, 2) {
 		first, second, offSecond = wB, wA, offA
@@ -631,6 +639,9 @@ func c04overtaken(env *core.Env, kind string) {
 	}
 	x := c.Bytes("x", c.Range("xlen", 1, 40))
 	y := c.Bytes("y", c.Range("ylen", 1, 40))
+	if c.Bool("equal-sized-chunks", 1, 2) {
+		y = c.Bytes("y.same", len(x)) // a request and its retry
+	}
 	if _, err := first.Write(x); err != nil {
 		env.Failf("C04/Write/unexpected-failure", "Write at the right offset %d failed: %v", n, err)
 	}
@@ -656,6 +667,13 @@ func c04overtaken(env *core.Env, kind string) {
 			_, perr = second.Commit(reg.Sha256(append(append(append([]byte{}, base...), x...), y...)))
 		} else {
 			perr = second.Close()
+		}
+	}
+	if werr != nil && c.Bool("refused-writer-tries-again", 1, 2) {
+		// a refused writer stays refused: nothing it sends later may get through either
+		z := c.Bytes("z", c.Range("zlen", 1, 40))
+		if _, err := second.Write(z); err == nil && kind == "mem" {
+			env.Failf("C04/stale/accepted", "a writer whose first write (for offset %d, the registry held %d) had been refused wrote %d more bytes and they were accepted", n, before, len(z))
 		}
 	}
 	after := held()
